@@ -379,8 +379,9 @@ func (*BinaryStringExprNode) GetType() NodeType {
 }
 
 func (node *BinaryStringExprNode) IsSeekable() bool {
-	return (node.op == BinaryOpEQ || node.op == BinaryOpNEQ) &&
-		(node.left.IsConst() || node.right.IsConst())
+	// only equality can be answered by seeking to the value. For != the element found by the seek
+	// says nothing about the other elements of the set
+	return node.op == BinaryOpEQ && (node.left.IsConst() || node.right.IsConst())
 }
 
 func (node *BinaryStringExprNode) EvalBoolWithSeek(s Symbols, cursor TypeSeekableSetCursor) bool {
